@@ -718,10 +718,16 @@ CLAIMS["C03"]["text"] += (
 CLAIMS["C03"]["note"] += (
     " Round 11 — proved: the three theorems above (axioms propext, Classical.choice, Quot.sound). Four places where Wt alone was "
     "too weak became decidable conjuncts of the fragment (enum field read without the variant fact; struct N vs enum N; dispatch "
-    "row vs implementing function; wildcard-compatible vs exact callee instance). Not proved: closures / function values, Ref / Vec / "
+    "row vs implementing function; wildcard-compatible vs exact callee instance). Not proved (closures / function values were added in the second pass): Ref / Vec / "
     "arrays (store typing), trait objects, go, trait calls on receivers of parametric type inside the fragment, progress. Validated "
     "only: the static-dispatch oracle on programs outside the fragment. In real Core dumps the typer has already resolved every "
     "trait-method call on a concrete receiver to a direct call; every ETraitCall left has a receiver of parametric type.")
+CLAIMS["C03"]["text"] += (
+    " Second pass of round 11: value typing is the inductive predicate ValTy.VT (closures: their code is Wt-consistent and in "
+    "the fragment under a typing of the captured environment at the instantiation of the activation that built them; top-level "
+    "functions as values at an instance of their signature); the fragment admits closure nodes, function values and calls of any "
+    "fragment expression of function type; sem_preserves_types_applyv_partial covers the application of any function value. "
+    "Real Core dumps inside the hypothesis: 81 -> 216 of 682.")
 CLAIMS["C07"]["note"] += (
     " Round 11: traitcall_static_dispatch (Props/C03.lean) proves, on the fragment of sem_preserves_types_partial, the typing "
     "invariant traitcall_commutes assumes (runtime key = key of the instantiated static type); ./check C07 also runs the "
